@@ -251,6 +251,8 @@ def _shape_of_origin(fx, fn, o, depth):
             return label_shape(fx, fn, t["args"][0], depth + 1)
         if n in ("format", "format_inner", "must_use"):
             return label_shape(fx, fn, t["args"][0], depth + 1)
+        if o[2]:
+            return [("field", n, tuple(o[2]))]
         return [("call", n)]
     if o[0] == "agg":
         return [("other", "agg")]
@@ -283,6 +285,24 @@ def classify(parts):
     if kinds == ["param"]:
         return "PARAM"
     return None
+
+
+def identifier_separator(ctx):
+    """literal text between name and id in `Print for core_lang Identifier` (folded), for identifiers with id != 0"""
+    from .. import docmodel
+    fx = ctx.fx
+    key = "<scc_core_lang::syntax::names::Identifier as scc_printer::types::Print>::print"
+    v = Adt("scc_core_lang::syntax::names::Identifier", "Identifier", {"name": Sym("NAME"), "id": 7})
+    I = interp.Interp(fx, hooks=[docmodel.doc_hook], max_depth=4)
+    outs = I.run(fx.fn(key), [v, Sym("cfg"), Sym("alloc")])
+    docs = [o.result for o in outs if isinstance(o.result, docmodel.Doc)]
+    if len(docs) != 1:
+        raise AnalysisError("R-LABEL: Print for Identifier could not be folded")
+    txt = docmodel.render(docs[0])
+    m = re.fullmatch(r"<\$NAME>(.*)7", txt)
+    if not m:
+        raise AnalysisError("R-LABEL: unexpected printed form of identifiers: %r" % txt)
+    return m.group(1)
 
 
 def rule_label(ctx):
@@ -360,8 +380,27 @@ def rule_label(ctx):
                 # the contains check and a fresh_identifier call lie on a common cycle: retry until unused
                 if c in fn.reach_from(fb) and fb in fn.reach_from(c):
                     in_loop = True
-    if cont and in_loop:
-        res.inst(ikey, fn.file, fn.line, "ok", "fresh_identifier is retried until used_labels does not contain the printed name")
+    # the name that is tested must be the printed form of the label: print(Identifier{name, id != 0}) = name ++ sep ++ id
+    tested_ok = False
+    tested_shape = None
+    sep = identifier_separator(ctx)
+    for c in cont:
+        t = fn.term(c)
+        a = t["args"][1]
+        ar = op_root(a)
+        for o in flow.origins(ar, ()):
+            if o[0] == "call" and fn.term(o[1]).get("callee_name") == "new":
+                inner = fn.term(o[1])["args"][0]
+                tested_shape = _merge_lits(label_shape(fx, fn, inner))
+                want = [("field", "fresh_identifier", ("name",)), ("lit", sep), ("field", "fresh_identifier", ("id",))]
+                if tested_shape == want:
+                    tested_ok = True
+    if cont and in_loop and tested_ok:
+        res.inst(ikey, fn.file, fn.line, "ok", "fresh_identifier is retried until used_labels does not contain the printed name (name ++ %r ++ id)" % sep)
+    elif cont and in_loop:
+        res.inst(ikey, fn.file, fn.line, "violation")
+        res.violate(ikey, "lift tests `%s` against used_labels, but the label is printed as name ++ %r ++ id: the freshness test looks up a "
+                    "string the label never has, so a user definition with the printed name still collides" % (Shape(tested_shape or []), sep), fn.file, fn.line)
     else:
         res.inst(ikey, fn.file, fn.line, "violation")
         res.violate(ikey, "lift names the lifted definition `lift_<f>_` with a fresh id, printed `lift_<f>__<id>` - a string inside the language of "
